@@ -473,8 +473,38 @@ def case_est(ctx, res, p):
                         signature="C14:n_obs:dict-extra-keys" if extra else "C14:est:n_obs-value:" + norm["kind"])
 
 
+def case_lstime_d(ctx, res, p):
+    """A per-cell d with the time length scale computed (ls_time=None): every per-time-point helper fit must get the d of its
+    own cells (fixed defect 724639b: it got the whole vector -> TypeError); a constant vector is the scalar."""
+    m = mellon()
+    rng = np.random.default_rng(int(p["seed"]))
+    n = 36
+    X = rng.normal(size=(n, 2))
+    T = np.repeat([0.0, 1.0, 2.0], [15, 12, 9])[rng.permutation(n)]
+    kw = dict(optimizer="adam", n_iter=3, n_landmarks=0)
+    res.case(("lstime_d", p["seed"]), True, {"op": "lstime_d", "seed": p["seed"]})
+    out = {}
+    for name, d in (("scalar", 2.0), ("const-vector", np.full(n, 2.0)), ("vector", np.exp(rng.uniform(np.log(1.5), np.log(3.0), size=n)))):
+        try:
+            e = m.TimeSensitiveDensityEstimator(d=d, **kw)
+            r = np.asarray(e.fit_predict(X, T), float)
+            out[name] = (float(e.ls_time), r)
+        except Exception as ex:
+            res.oracle_fail(f"TimeSensitiveDensityEstimator(d={name}) with a computed ls_time raised {type(ex).__name__}: {str(ex)[:100]}",
+                            p, signature="C14:per-cell-d-ls-time")
+            return
+        if not (np.isfinite(out[name][0]) and out[name][0] > 0 and np.all(np.isfinite(r))):
+            res.oracle_fail("per-cell d with a computed ls_time gives a non-finite result", p, signature="C14:per-cell-d-ls-time")
+    if out["scalar"][0] != out["const-vector"][0] or out["scalar"][1].tobytes() != out["const-vector"][1].tobytes():
+        res.oracle_fail("a constant per-cell d does not give the result of the scalar when ls_time is computed", p,
+                        detail={"ls_time": [out["scalar"][0], out["const-vector"][0]]}, signature="C14:per-cell-d-ls-time")
+    res.count("lstime_d:done")
+
+
 def run_case(ctx, res, p):
     mellon()
+    if p["op"] == "lstime_d":
+        return case_lstime_d(ctx, res, p)
     if p["op"] == "nn":
         return case_nn(ctx, res, p)
     if p["op"] == "avg":
@@ -573,6 +603,7 @@ def run(ctx, res):
         run_case(ctx, res, {"op": "nn", "X": Xw, "T": Tw, "how": "column", "d": ddesc("int", [1.0]),
                             "norm": ndesc(kind, [2.0, 7.0], ints=True)})
     run_case(ctx, res, {"op": "avg", "X": Xw, "T": Tw, "norm": ndesc("dict", [30.0, 1000.0], keys=[0.0, 9.0], ints=True)})
+    run_case(ctx, res, {"op": "lstime_d", "seed": 5})
     # ---- (1a) every number of time points x every normalisation form (valid), rotating d / how / f
     for k in range(1, 9):
         for kind in ["false", "none", "true", "list", "jax", "tuple", "np", "dict"]:
